@@ -266,6 +266,14 @@ def rule_object_list(ctx: Ctx) -> None:
             same = fact_where(ib, lambda k: S(k) in (f"same:{o1}.uuid=={o2}.uuid", f"same:{o2}.uuid=={o1}.uuid"))
             ctx.require(same is not None, "interpolate_object_list: pairing test is not uuid equality")
             ap = [(a.recv, S(a.args[0])) for a in appends(ib) if a.recv == "output_object_list"]
+            fl = ib.env.get("found")
+            ids_here = [S(a.args[0]) for a in appends(ib) if a.recv == "id_list"]
+            if same:
+                ctx.check(fl is not None and S(fl) == "True", "C17-object-list", "interpolate_object_list", "paired:flag", f"on a uuid match the `found` flag becomes `{S(fl) if fl is not None else 'unchanged'}`; it must be set (the object would be kept a second time as unpaired)", fi=fi)
+                ctx.check(ids_here in ([f"{o1}.uuid"], [f"{o2}.uuid"]), "C17-object-list", "interpolate_object_list", "paired:id-registered",
+                          f"on a uuid match the handled ids gain {ids_here}; the pair's uuid must be registered, otherwise the second loop keeps the later object again (duplicate)", fi=fi)
+            else:
+                ctx.check(fl is None, "C17-object-list", "interpolate_object_list", "not-paired:flag", f"objects with different uuid set the `found` flag to `{S(fl) if fl is not None else None}`", fi=fi)
             if same:
                 n_found += 1
                 ctx.check(ap == [("output_object_list", f"interpolate_object({o1},{o2},t1,t2,t)")] and ib.exit == ("break",), "C17-object-list", "interpolate_object_list", "paired",
@@ -273,6 +281,8 @@ def rule_object_list(ctx: Ctx) -> None:
             else:
                 ctx.check(not ap, "C17-object-list", "interpolate_object_list", "not-paired", "objects with different uuid are appended", fi=fi)
         found = fact_where(bp, lambda k: S(strip_v(k)) == "truthy:found")
+        f0 = inner[0].pre.get("found") if inner else None
+        ctx.check(f0 is not None and S(f0) == "False", "C17-object-list", "interpolate_object_list", "flag-starts-false", f"before searching the second list the `found` flag is `{S(f0) if f0 is not None else None}`; it must start False (an unpaired object of the first list would be dropped)", fi=fi)
         ap = [(a.recv, S(a.args[0])) for a in appends(bp) if a.recv == "output_object_list"]
         if found is False:
             n_missing += 1
